@@ -39,6 +39,11 @@ type sourceFragment struct {
 	program            *analysis.ProgramInfo
 	simpleCheckpoint   factstore.FactStoreWithRemove
 	temporalCheckpoint factstore.TemporalFactStore
+	// Entries of knownPredicates as they were before this fragment was
+	// pushed, for the predicates the fragment's analysis (re)declared;
+	// absent is recorded as false in hadDecl.
+	declCheckpoint map[ast.PredicateSym]ast.Decl
+	hadDecl        map[ast.PredicateSym]bool
 }
 
 // Interpreter is an interactive interpreter.
@@ -410,7 +415,18 @@ func (i *Interpreter) Preload(units []parse.SourceUnit, store factstore.FactStor
 
 func (i *Interpreter) pushSourceFragment(pathset string, units []parse.SourceUnit, programInfo *analysis.ProgramInfo) {
 	i.src = append(i.src, pathset)
-	i.sourceFragments[pathset] = &sourceFragment{units, programInfo, i.simpleStore, i.temporalStore}
+	declCheckpoint := make(map[ast.PredicateSym]ast.Decl)
+	hadDecl := make(map[ast.PredicateSym]bool)
+	for _, decl := range programInfo.Decls {
+		sym := decl.DeclaredAtom.Predicate
+		if old, ok := i.knownPredicates[sym]; ok {
+			declCheckpoint[sym] = old
+			hadDecl[sym] = true
+		} else {
+			hadDecl[sym] = false
+		}
+	}
+	i.sourceFragments[pathset] = &sourceFragment{units, programInfo, i.simpleStore, i.temporalStore, declCheckpoint, hadDecl}
 	for _, decl := range programInfo.Decls {
 		i.knownPredicates[decl.DeclaredAtom.Predicate] = *decl
 	}
@@ -451,8 +467,15 @@ func (i *Interpreter) popSourceFragment() *sourceFragment {
 	f := i.sourceFragments[path]
 	i.src = i.src[:l-1]
 	delete(i.sourceFragments, path)
-	for _, decl := range f.program.Decls {
-		delete(i.knownPredicates, decl.DeclaredAtom.Predicate)
+	// The analysis result lists the declarations of all predicates known at
+	// the time, not only those of this fragment: forget only what the
+	// fragment added and put back what it replaced.
+	for sym, had := range f.hadDecl {
+		if had {
+			i.knownPredicates[sym] = f.declCheckpoint[sym]
+		} else {
+			delete(i.knownPredicates, sym)
+		}
 	}
 	i.simpleStore = f.simpleCheckpoint
 	i.temporalStore = f.temporalCheckpoint
